@@ -115,6 +115,8 @@ def main():
         "engines": [
             {"name": "xrt", "path": "/verif/hv (features rt_tokio | rt_async | rt_smol, no hook)", "serves_properties": ["C18"],
              "kind_free_text": "three builds of the harness against hannibal's three runtime features running the same single-client programs on the real runtimes; records compared by the driver"},
+            {"name": "mt", "path": "/verif/hv (feature mt, hook off)", "serves_properties": sorted(k for k in PLANS if "mt" in PLANS[k]["engines"]),
+             "kind_free_text": "L2: the same generated programs on a real multi-threaded tokio runtime with every client an OS thread (true parallelism, guard-off production build); only rules sound under real time are evaluated (oracle/mod.rs mt_sound); watchdog = inconclusive"},
             {"name": "l1", "path": "/verif/hv (feature l1)", "serves_properties": sorted(k for k in PLANS if "l1" in PLANS[k]["engines"]),
              "kind_free_text": "seeded single-threaded controlled executor with virtual clock, fault plan and task census running the unmodified hannibal actor loops through the verif shim; offline oracles over the recorded event log"},
         ],
